@@ -267,10 +267,66 @@ def expected_candidates(case):
     return {f"modules.{module_name}"}
 
 
+# ----------------------------------------------------------------------------------------------------------
+# legacy TrigInfo.__init__: the evaluators of @state_trigger / @state_active / @event_trigger / @mqtt_trigger /
+# @webhook_trigger expressions belong to the global context the TRIGGER WAS DECLARED IN (the one passed to TrigInfo),
+# whatever context the action function comes from (a wrapper returned by a decorator imported from a module lives there)
+# ----------------------------------------------------------------------------------------------------------
+def h_triginfo_contexts(eng):
+    from pyvc.stmts import Interpreter
+    from .common import World
+    from . import C09 as c09
+    it = Interpreter(eng)
+    it.obj_may_be_none = True
+    w = World(eng)
+    mod, Fn = c09.trig_module(eng, it, w)
+    U = "C11/TrigInfo.__init__"
+    declared, elsewhere = Rec(name="declaring-global-context"), Rec(name="module-global-context")
+    made = []
+
+    def AstEvalStub(it_, name, gctx, logger_name=None):
+        r = Rec(fields={"parse": lambda it2, src, mode=None: None, "log_exception": lambda it2, e: None}, name=f"AstEval<{name}>")
+        made.append((name, gctx, logger_name))
+        return r
+    mod.env.vars["AstEval"] = AstEvalStub
+    mod.env.vars["STATE_RE"] = Rec(fields={"match": lambda it_, s_: None}, name="STATE_RE")
+    Fn._fields["install_ast_funcs"] = lambda it_, a: None
+    from .common import QueueS
+    mod.env.vars["asyncio"].attrs["Queue"] = lambda it_, n=0: SV(z3.Const("notify_q", QueueS))
+    action = Rec(fields={"global_ctx": elsewhere, "global_ctx_name": "modules.helpers", "name": "wrapper"}, name="action")
+    present = {k: bool(eng.choose(2, k)) for k in ("state_trigger", "state_active", "event_trigger", "mqtt_trigger", "webhook_trigger")}
+    cfg = {"action": action, "global_sym_table": {}}
+    if present["state_trigger"]:
+        cfg["state_trigger"] = {"args": ["limit > 3 and d.e == '1'"], "kwargs": {}}
+    if present["state_active"]:
+        cfg["state_active"] = {"args": "limit > 3"}
+    for k in ("event_trigger", "mqtt_trigger", "webhook_trigger"):
+        if present[k]:
+            cfg[k] = {"args": ["name", "limit > 3"], "kwargs": {}}
+    cls = mod.env.vars["TrigInfo"]
+    k, v = run_catching(it, lambda: it.call(cls, ["file.x.f", cfg, declared], {}))
+    eng.cover(f"exit:{k}")
+    eng.oblige(f"{U}/post.no-exception", k == "ok")
+    if k != "ok":
+        return
+    want = sum(present.values())
+    eng.oblige(f"{U}/post.one-evaluator-per-expression", len(made) == want)
+    ob = eng.oblige(f"{U}/post.expression-evaluators-belong-to-the-declaring-context", all(g is declared for _, g, _ in made))
+    if ob.status == "refuted":
+        ob.witness = {"signature": "trigger-expression-in-another-context", "what": "triginfo-context"}
+    eng.oblige(f"{U}/post.the-trigger-keeps-its-declaring-context", it.getattr_(v, "global_ctx") is declared)
+
+
+def replay_triginfo(wj):
+    from replay.native import run_native
+    return run_native("c11_trigger_expression_context", wj, timeout=120)
+
+
 def harnesses():
     hs = [Harness("EvalFunc.call.frame[same-context]", h_call_frame(False), units=[(E_PY, "EvalFunc.call")]),
           Harness("EvalFunc.call.frame[cross-context]", h_call_frame(True), units=[(E_PY, "EvalFunc.call")]),
           Harness("ast_classdef.frame", h_classdef_frame, units=[(E_PY, "AstEval.ast_classdef")], replay=replay_classdef)]
+    hs.append(Harness("TrigInfo.__init__.contexts", h_triginfo_contexts, units=[(f"{PKG}/trigger.py", "TrigInfo.__init__")], replay=replay_triginfo))
     for c in IMPORT_CASES:
         hs.append(Harness(f"module_import[{c[0]},level={c[1]},rel={c[2]}]", h_module_import(c), units=[(GC_PY, "GlobalContext.module_import")]))
     return hs
